@@ -1,10 +1,347 @@
 (** Property C06 - every Interaction Model operation is mediated by the
-    access check.  Property theorems only (work in progress). *)
-From RsM Require Import Lib.MachInt Model.Acl Model.AclSpec Model.Im Model.ImSpec Proofs.ImTimed.
+    access check.  Property theorems only.
+
+    Model: Model/Im.v (im/expand.rs, dm/types/cluster.rs check_*_access,
+    im/invoker.rs, im.rs handle / timed_out / read / write / invoke,
+    transcribed).  The access decision is C05's (Model/Acl.v).
+    Specification: Model/ImSpec.v ([permitted], [served],
+    [concrete_decision], [request_spec], [spec_response]) over the
+    declarative [spec_granted] of C05.
+
+    Reading of "permitted for the requester" where the code caches the
+    authorisation (expand.rs [last_authorized]): an entry that repeats the
+    element served immediately before it in the same request is covered by
+    the authorisation of that first access.  With the node and the access
+    control lists fixed during a request the cache is invisible (first
+    group of theorems); with either replaced between steps the reading is
+    explicit in [served_sound] (C06_resume_sound). *)
+From RsM Require Import Lib.MachInt Model.Acl Model.AclSpec Model.Im Model.ImSpec.
+From RsM Require Import Proofs.ImExpand Proofs.ImRun Proofs.ImSound Proofs.ImTimed
+  Proofs.ImTheorems Proofs.ImMonitor Proofs.ImResume.
 Open Scope N_scope.
 
+(** ** Exactness, for every node, every access-control table, every
+    requester, every list of concrete and wildcard paths in any order and
+    with repeats: the entries of the answer are the specified ones, in
+    order, and the handler is called for exactly the served ones. *)
+Theorem C06_request_exact :
+  forall (fabs : list fabric) (who : accessor) (op : operation) (timed : bool)
+         (flt : N -> N -> N -> bool) (ff : bool) (nd : node),
+  wf_fabrics fabs = true -> wf_node nd = true ->
+  forall (items : list item) (fuel : nat),
+  (length (request_spec nd fabs who op timed flt items) < fuel)%nat ->
+  expand_all fuel (mkEnv op who timed flt) ff (mkCfg nd fabs) [] items
+  = RunDone (request_spec nd fabs who op timed flt items)
+            (calls_of who op ff (request_spec nd fabs who op timed flt items)).
+Proof. exact expand_all_exact. Qed.
+Print Assumptions C06_request_exact.
+
+(** A wildcard item: the outputs are exactly [permitted] (restricted by the
+    report filter), each once, in node order; the rest is omitted silently;
+    the handler receives exactly those. *)
+Theorem C06_wildcard_exact :
+  forall (fabs : list fabric) (who : accessor) (op : operation) (timed : bool)
+         (flt : N -> N -> N -> bool) (ff : bool) (nd : node) (it : item) (fuel : nat),
+  wf_fabrics fabs = true -> wf_node nd = true ->
+  is_wildcard (it_path it) = true ->
+  is_read op = true \/ (is_some (p_cl (it_path it)) = true /\ is_some (p_leaf (it_path it)) = true) ->
+  (length (served nd fabs who op timed flt (it_path it)) < fuel)%nat ->
+  expand_all fuel (mkEnv op who timed flt) ff (mkCfg nd fabs) [] [it]
+  = RunDone (map (out_of (it_tag it)) (served nd fabs who op timed flt (it_path it)))
+            (calls_of who op ff (map (out_of (it_tag it)) (served nd fabs who op timed flt (it_path it)))).
+Proof. exact wildcard_exact. Qed.
+Print Assumptions C06_wildcard_exact.
+
+(** without a report filter, [served] is [permitted] *)
+Theorem C06_served_unfiltered :
+  forall (nd : node) (fabs : list fabric) (who : accessor) (op : operation) (timed : bool) (p : gpath),
+  served nd fabs who op timed (fun _ _ _ => true) p = permitted nd fabs who op timed p.
+Proof. exact served_unfiltered. Qed.
+Print Assumptions C06_served_unfiltered.
+
+(** A concrete path: the value, or the status the decision table gives;
+    on a status the handler is not called. *)
+Theorem C06_concrete_status :
+  forall (fabs : list fabric) (who : accessor) (op : operation) (timed : bool)
+         (flt : N -> N -> N -> bool) (ff : bool) (nd : node) (e c l : N) (tag : option N) (fuel : nat),
+  wf_fabrics fabs = true -> wf_node nd = true -> (1 < fuel)%nat ->
+  expand_all fuel (mkEnv op who timed flt) ff (mkCfg nd fabs) []
+             [mkItem (mkPath (Some e) (Some c) (Some l)) tag]
+  = match concrete_decision nd fabs who op timed flt e c l with
+    | Served t => RunDone [out_of tag t] (calls_of who op ff [out_of tag t])
+    | Refused s => RunDone [OStatus (mkPath (Some e) (Some c) (Some l)) tag s] []
+    | Silent => RunDone [] []
+    end.
+Proof. exact concrete_status. Qed.
+Print Assumptions C06_concrete_status.
+
+(** the decision table serves exactly the permitted elements *)
+Theorem C06_concrete_served_permitted :
+  forall (nd : node) (fabs : list fabric) (who : accessor) (op : operation) (timed : bool)
+         (flt : N -> N -> N -> bool) (e c l : N) (t : cand),
+  concrete_decision nd fabs who op timed flt e c l = Served t ->
+  In t (all_leaves op nd) /\ cand_ids t = (e, c, l)
+  /\ permitted_leaf fabs who op timed t = true /\ flt e c l = true.
+Proof. exact concrete_served. Qed.
+Print Assumptions C06_concrete_served_permitted.
+
+(** every served entry of an answer is an element that exists on the node,
+    matches one of the requested paths and is permitted *)
+Theorem C06_served_permitted :
+  forall (nd : node) (fabs : list fabric) (who : accessor) (op : operation) (timed : bool)
+         (flt : N -> N -> N -> bool) (items : list item) (e c l : N) (tag : option N),
+  In (OData e c l tag) (request_spec nd fabs who op timed flt items) ->
+  exists it t, In it items /\ In t (all_leaves op nd) /\ cand_ids t = (e, c, l)
+               /\ matches (it_path it) t = true /\ permitted_leaf fabs who op timed t = true.
+Proof. exact request_spec_data. Qed.
+Print Assumptions C06_served_permitted.
+
+(** ** The whole engine (timed gate, request validation, expansion) *)
+Theorem C06_engine_exact :
+  forall (fuel max_paths : nat) (who : accessor) (nd : node) (fabs : list fabric) (rq : imreq),
+  wf_node nd = true -> wf_fabrics fabs = true ->
+  (length (spec_outs nd fabs who rq) < fuel)%nat ->
+  im_handle fuel max_paths who (mkCfg nd fabs) [] rq = spec_response max_paths who nd fabs rq.
+Proof. exact im_handle_exact. Qed.
+Print Assumptions C06_engine_exact.
+
+(** ** Timed interactions *)
 Theorem C06_timed_gate :
   forall (win : option N) (flag : bool) (elapsed : N),
   timed_gate win flag elapsed = gate_spec win flag elapsed.
 Proof. exact timed_gate_eq_spec. Qed.
 Print Assumptions C06_timed_gate.
+
+(** a write / invoke is processed only if its flag says what happened on
+    the exchange, and a timed one only inside the unexpired window: a timed
+    action without the window is refused as a whole *)
+Theorem C06_timed_window :
+  forall (fuel max_paths : nat) (who : accessor) (c0 : config) (sw : list (nat * config))
+         (rq : imreq) (outs : list out) (log : list hcall),
+  im_handle fuel max_paths who c0 sw rq = RespItems outs log -> rq_op rq <> Read ->
+  rq_flag rq = is_some (rq_win rq)
+  /\ (rq_flag rq = true -> window_open (rq_win rq) (rq_elapsed rq) = true).
+Proof. exact im_handle_items_gate. Qed.
+Print Assumptions C06_timed_window.
+
+(** a permitted write / invoke of a timed-only element is a timed one ... *)
+Theorem C06_timed_only :
+  forall (fabs : list fabric) (who : accessor) (op : operation) (timed : bool) (t : cand),
+  permitted_leaf fabs who op timed t = true -> op <> Read ->
+  timed_only (l_access (snd t)) = true -> timed = true.
+Proof. exact permitted_timed_only. Qed.
+Print Assumptions C06_timed_only.
+
+(** ... and outside a timed interaction it is refused with NeedsTimedInteraction *)
+Theorem C06_timed_only_refused :
+  forall (fabs : list fabric) (who : accessor) (op : operation) (t : cand),
+  op <> Read -> timed_only (l_access (snd t)) = true ->
+  leaf_decision fabs who op false t = Some SNeedsTimedInteraction.
+Proof. exact timed_only_refused. Qed.
+Print Assumptions C06_timed_only_refused.
+
+(** ** Fabric-scoped commands are refused to requesters without a fabric *)
+Theorem C06_fabric_scoped :
+  forall (fabs : list fabric) (who : accessor) (timed : bool) (t : cand),
+  permitted_leaf fabs who Invoke timed t = true ->
+  fabric_scoped (l_access (snd t)) = true -> a_fab who <> 0.
+Proof. exact permitted_fabric_scoped. Qed.
+Print Assumptions C06_fabric_scoped.
+
+Theorem C06_fabric_scoped_refused :
+  forall (fabs : list fabric) (who : accessor) (timed : bool) (t : cand),
+  fabric_scoped (l_access (snd t)) = true -> a_fab who = 0 ->
+  timed_ok Invoke timed (l_access (snd t)) = true ->
+  leaf_decision fabs who Invoke timed t = Some SUnsupportedAccess.
+Proof. exact fabric_scoped_refused. Qed.
+Print Assumptions C06_fabric_scoped_refused.
+
+(** ** Fabric-sensitive data: every call the handler receives carries the
+    requester's own fabric and, for reads, the request's filter flag
+    (writes are always fabric-filtered); the filtering of the data itself
+    is the cluster handler's (outside the model). *)
+Theorem C06_fabric_sensitive :
+  forall (who : accessor) (op : operation) (ff : bool) (outs : list out) (h : hcall),
+  In h (calls_of who op ff outs) ->
+  hcall_fabric h = a_fab who /\
+  (forall e c l f b, h = HRead e c l f b -> b = ff).
+Proof. exact calls_carry_fabric. Qed.
+Print Assumptions C06_fabric_sensitive.
+
+(** ** The node (and the access control lists) replaced between steps:
+    whatever the cursor and whatever the replacement, an element is handed
+    to the handler only if it exists in the node in force at that step,
+    matches and is permitted there - or repeats the element served
+    immediately before it (authorisation of the first access). *)
+Theorem C06_step_sound :
+  forall (env : xenv) (fabs : list fabric) (path : gpath) (nd : node) (st : xstate)
+         (eid cl id : N) (st' : xstate),
+  next_for_path env nd fabs st path = NFound eid cl id st' ->
+  x_last st' = Some (eid, cl, id) /\
+  exists e c l, In e nd /\ In c (ep_clusters e) /\ In l (leaves (xe_op env) c)
+                /\ ep_id e = eid /\ c_id c = cl /\ l_id l = id
+                /\ eok env fabs path e = true /\ cok path c = true
+                /\ accepted env fabs path (x_last st) e c l.
+Proof. exact next_for_path_found. Qed.
+Print Assumptions C06_step_sound.
+
+Theorem C06_resume_sound :
+  forall (fuel max_paths : nat) (who : accessor) (c0 : config) (sw : list (nat * config))
+         (rq : imreq) (outs : list out) (log : list hcall),
+  forallb cfg_wf (c0 :: map snd sw) = true ->
+  im_handle fuel max_paths who c0 sw rq = RespItems outs log ->
+  served_sound c0 sw who (rq_op rq) (run_timed rq) 0 None outs = true
+  /\ log = calls_of who (rq_op rq) (rq_ff rq) outs.
+Proof. exact im_handle_sound. Qed.
+Print Assumptions C06_resume_sound.
+
+(** one step of a wildcard scan on any well-formed node, from any coherent
+    cursor: the first acceptable element of what the cursor has not passed,
+    and the cursor lands right behind it (nothing in between is skipped,
+    nothing behind it is revisited) *)
+Theorem C06_resume_step :
+  forall (env : xenv) (fabs : list fabric) (path : gpath),
+  is_wildcard path = true ->
+  forall (nd : node) (st : xstate),
+  path_ok env path -> sorted nd -> scoh env fabs path nd st -> x_last st = None ->
+  match next_for_path env nd fabs st path with
+  | NFound eid cl id st' =>
+      exists e c l, In e nd /\ In c (ep_clusters e) /\ In l (leaves (xe_op env) c)
+                    /\ eok env fabs path e = true /\ cok path c = true /\ lok env fabs path e c l = true
+                    /\ eid = ep_id e /\ cl = c_id c /\ id = l_id l
+                    /\ remaining env fabs path nd st = (e, c, l) :: remaining env fabs path nd st'
+                    /\ scoh env fabs path nd st'
+                    /\ x_last st' = Some (eid, cl, id)
+  | NExhausted => remaining env fabs path nd st = []
+  | NStatus _ => False
+  end.
+Proof. exact next_for_path_wild. Qed.
+Print Assumptions C06_resume_step.
+
+(** The whole scan of a wildcard item while the node is replaced between
+    cursor steps ([drain nodes cursor ys]: the i-th step runs on the i-th
+    node, the last one finds the item exhausted) by nodes drawn from one
+    family of endpoints in which an id keeps its shape (the Node invariant
+    of dm/types/node.rs): every yield exists and is permitted in the node
+    in force at its step, nothing is yielded twice, and whatever every node
+    of the run serves is yielded. *)
+Theorem C06_resume_stable :
+  forall (fabs : list fabric) (who : accessor) (op : operation) (timed : bool)
+         (flt : N -> N -> N -> bool) (path : gpath) (fam : endpoint -> Prop)
+         (nodes : list node) (ys : list (N * N * N)),
+  wf_fabrics fabs = true -> is_wildcard path = true -> path_ok (mkEnv op who timed flt) path ->
+  (forall e e', fam e -> fam e' -> ep_id e = ep_id e' -> e = e') ->
+  (forall nd, In nd nodes -> good fam nd) ->
+  drain (mkEnv op who timed flt) fabs path nodes (fresh None) ys ->
+  Forall2 (fun nd y => exists t, cand_ids t = y /\ In t (served nd fabs who op timed flt path))
+          (firstn (length ys) nodes) ys
+  /\ NoDup ys
+  /\ (forall t, (forall nd, In nd nodes -> In t (served nd fabs who op timed flt path)) ->
+                In (cand_ids t) ys).
+Proof. exact resume_stable. Qed.
+Print Assumptions C06_resume_stable.
+
+(** ** The monitor run on the implementation is the property *)
+Theorem C06_monitor_sound :
+  forall (max_paths : nat) (who : accessor) (nd : node) (fabs : list fabric) (rq : imreq) (resp : imresp),
+  wf_node nd = true -> wf_fabrics fabs = true ->
+  holds max_paths who (mkCfg nd fabs) [] rq resp = true ->
+  resp = spec_response max_paths who nd fabs rq.
+Proof. exact holds_stable_sound. Qed.
+Print Assumptions C06_monitor_sound.
+
+Theorem C06_model_satisfies_monitor :
+  forall (fuel max_paths : nat) (who : accessor) (nd : node) (fabs : list fabric) (rq : imreq),
+  wf_node nd = true -> wf_fabrics fabs = true ->
+  (length (spec_outs nd fabs who rq) < fuel)%nat ->
+  holds max_paths who (mkCfg nd fabs) [] rq (im_handle fuel max_paths who (mkCfg nd fabs) [] rq) = true.
+Proof. exact holds_model. Qed.
+Print Assumptions C06_model_satisfies_monitor.
+
+(** ** Non-vacuity: the hypotheses are satisfiable and every kind of
+    outcome occurs (evaluated inside Coq on the model). *)
+Definition ex_node : node :=
+  [mkEndpoint 0 [22] [mkCluster 6 [mkLeaf 0 17 true; mkLeaf 1 57 true; mkLeaf 2 313 true; mkLeaf 3 24 true]
+                                  [mkLeaf 0 46 true; mkLeaf 1 302 true; mkLeaf 2 104 true]];
+   mkEndpoint 1 [] [mkCluster 6 [mkLeaf 0 17 true] []]].
+Definition ex_manager : list fabric := [mkFabric 1 [mkEntry 7 ACase (Some [112233]) None (Some 1)] []].
+Definition ex_admin : list fabric := [mkFabric 1 [mkEntry 15 ACase (Some [112233]) None (Some 1)] []].
+Definition ex_who : accessor := for_session (SCase 1 [0; 0; 0]) (Some 112233) false.
+Definition ex_pase : accessor := for_session (SPase 0) None false.
+Definition ex_it (e c l : option N) : item := mkItem (mkPath e c l) None.
+Definition ex_p (e c l : N) : gpath := mkPath (Some e) (Some c) (Some l).
+
+Example C06_ex_wellformed :
+  wf_node ex_node = true /\ wf_fabrics ex_manager = true /\ wf_fabrics ex_admin = true.
+Proof. vm_compute. repeat split. Qed.
+
+(** a wildcard read by a Manage requester: the Administer-only attribute 3 is omitted silently *)
+Example C06_ex_wildcard_read :
+  im_handle 30 4 ex_who (mkCfg ex_node ex_manager) [] (mkReqst None 0 Read false false [ex_it None None None])
+  = RespItems [OData 0 6 0 None; OData 0 6 1 None; OData 0 6 2 None; OData 1 6 0 None]
+              [HRead 0 6 0 1 false; HRead 0 6 1 1 false; HRead 0 6 2 1 false; HRead 1 6 0 1 false].
+Proof. vm_compute. reflexivity. Qed.
+
+(** concrete reads: not permitted, absent, permitted *)
+Example C06_ex_concrete_read :
+  im_handle 30 4 ex_who (mkCfg ex_node ex_manager) []
+    (mkReqst None 0 Read false false
+       [ex_it (Some 0) (Some 6) (Some 3); ex_it (Some 0) (Some 6) (Some 9); ex_it (Some 0) (Some 6) (Some 0)])
+  = RespItems [OStatus (ex_p 0 6 3) None SUnsupportedAccess; OStatus (ex_p 0 6 9) None SUnsupportedAttribute;
+               OData 0 6 0 None]
+              [HRead 0 6 0 1 false].
+Proof. vm_compute. reflexivity. Qed.
+
+(** writes by an Administer requester: a timed-only attribute outside / inside a timed interaction *)
+Example C06_ex_write_untimed :
+  im_handle 30 4 ex_who (mkCfg ex_node ex_admin) []
+    (mkReqst None 0 Write false false [ex_it (Some 0) (Some 6) (Some 2); ex_it (Some 0) (Some 6) (Some 1)])
+  = RespItems [OStatus (ex_p 0 6 2) None SNeedsTimedInteraction; OData 0 6 1 None] [HWrite 0 6 1 1].
+Proof. vm_compute. reflexivity. Qed.
+
+Example C06_ex_write_timed :
+  im_handle 30 4 ex_who (mkCfg ex_node ex_admin) []
+    (mkReqst (Some 5000) 10 Write true false [ex_it (Some 0) (Some 6) (Some 2)])
+  = RespItems [OData 0 6 2 None] [HWrite 0 6 2 1].
+Proof. vm_compute. reflexivity. Qed.
+
+Example C06_ex_write_expired :
+  im_handle 30 4 ex_who (mkCfg ex_node ex_admin) []
+    (mkReqst (Some 5) 10 Write true false [ex_it (Some 0) (Some 6) (Some 2)]) = RespStatus STimeout.
+Proof. vm_compute. reflexivity. Qed.
+
+Example C06_ex_write_flag_without_window :
+  im_handle 30 4 ex_who (mkCfg ex_node ex_admin) []
+    (mkReqst None 0 Write true false [ex_it (Some 0) (Some 6) (Some 2)]) = RespStatus STimedRequestMisMatch.
+Proof. vm_compute. reflexivity. Qed.
+
+(** a fabric-scoped command: refused to a PASE requester without fabric, served to the administrator *)
+Example C06_ex_fabric_scoped :
+  im_handle 30 4 ex_pase (mkCfg ex_node ex_admin) []
+    (mkReqst None 0 Invoke false false [ex_it (Some 0) (Some 6) (Some 2)])
+  = RespItems [OStatus (ex_p 0 6 2) None SUnsupportedAccess] []
+  /\ im_handle 30 4 ex_who (mkCfg ex_node ex_admin) []
+       (mkReqst None 0 Invoke false false [ex_it (Some 0) (Some 6) (Some 2)])
+     = RespItems [OData 0 6 2 None] [HInvoke 0 6 2 1].
+Proof. vm_compute. split; reflexivity. Qed.
+
+(** endpoint 0 removed after the first handler call of a wildcard read: the scan goes on with endpoint 1 *)
+Example C06_ex_node_replaced :
+  im_handle 30 4 ex_who (mkCfg ex_node ex_manager) [(1%nat, mkCfg (tl ex_node) ex_manager)]
+    (mkReqst None 0 Read false false [ex_it None None None])
+  = RespItems [OData 0 6 0 None; OData 1 6 0 None] [HRead 0 6 0 1 false; HRead 1 6 0 1 false].
+Proof. vm_compute. reflexivity. Qed.
+
+(** the same run at the level of the cursor: a [drain] over three nodes of one family *)
+Example C06_ex_drain :
+  drain (mkEnv Read ex_who false (fun _ _ _ => true)) ex_manager (mkPath None None None)
+        [ex_node; tl ex_node; tl ex_node] (fresh None) [(0, 6, 0); (1, 6, 0)]
+  /\ (forall nd, In nd [ex_node; tl ex_node; tl ex_node] -> good (fun e => In e ex_node) nd).
+Proof.
+  split.
+  - eapply drain_step; [vm_compute; reflexivity|].
+    eapply drain_step; [vm_compute; reflexivity|].
+    apply drain_done. vm_compute. reflexivity.
+  - intros nd [<-|[<-|[<-|[]]]]; (split; [vm_compute; reflexivity|]); intros e He;
+      [exact He|right; exact He|right; exact He].
+Qed.
